@@ -21,7 +21,7 @@ from mtsa.cfg import CFG, _is_catch_all
 from mtsa.index import FunctionInfo, Repo, calls_in, dotted, norm, walk_no_nested
 from mtsa.report import AnalysisError, Ctx
 
-from .common import bound_argument, call_sites, cfg_of, code_selector, is_call_to, is_none, method_call, returns_of
+from .common import bound_argument, call_sites, cfg_of, code_selector, is_call_to, is_none, method_call, returns_of, block_entry
 
 LEVEL = "other"
 EXPLANATION = (
@@ -742,19 +742,26 @@ def rule_restore_flush(ctx: Ctx, repo: Repo) -> None:
     logger.flush {returns, raises} x {entered at once, entered later}.  Required: the tracer is the installed profiler
     while the body runs; afterwards the profiler that was installed when the block was ENTERED is back; flush is called
     exactly once, after the restore; the block ends the way its body ended, whatever flush did."""
-    from mtsa.absint import K, R, S, U, raise_exc
+    from mtsa.absint import K, R, Ref, S, U, raise_exc
     from .common import RepoInterp
-    tc = repo.fn(M, "trace_calls")
+    tc = block_entry(repo)
     ctx.functions.add(tc.fq)
     mod = repo.module(M)
     ci = repo.cls(M, "CallTracer")
     init = repo.method(ci, "__init__")
     n = 0
-    for prepared in (False, True):
+    for prepared in (False, True, "decorated"):
         for body_raises in (False, True):
             for flush_raises in (False, True):
                 src = "def __driver__(logger, P1, BODY):\n    cm = trace_calls(logger, 0, None, None)\n" + \
-                      ("    sys.setprofile(P1)\n" if prepared else "") + "    with cm:\n        BODY()\n"
+                      ("    sys.setprofile(P1)\n" if prepared is True else "") + "    with cm:\n        BODY()\n"
+                if prepared == "decorated":
+                    # `@trace_calls(...) def f(): ... f() ...` - the decorator form (contextlib.ContextDecorator.__call__: `with
+                    # self._recreate_cm(): return func(*args)`) entered again from inside the block, by recursion: a generator-
+                    # based manager is created anew for each entry, a class-based one is the SAME object unless it says otherwise
+                    if flush_raises:
+                        continue
+                    src = "def __driver__(logger, P1, BODY):\n    cm = trace_calls(logger, 0, None, None)\n    with RECREATE(cm):\n        with RECREATE(cm):\n            BODY()\n"
                 node = ast.parse(src).body[0]
                 fi = FunctionInfo(mod, "<driver>", node)
                 world = {"profile": R("profiler", name=K("P0"))}
@@ -771,6 +778,14 @@ def rule_restore_flush(ctx: Ctx, repo: Repo) -> None:
                     if d in ("sys.settrace", "sys.gettrace", "threading.setprofile", "threading.settrace"):
                         _l.append((d,))
                         return R("tracefunc") if "get" in d else K(None)
+                    if d == "RECREATE" and len(args) == 1:
+                        a0 = args[0]
+                        if isinstance(a0, Ref) and a0.kind == "obj":
+                            ci_cm = ri._class_of_ref(a0, st)
+                            rec = repo.method(ci_cm, "_recreate_cm") if ci_cm is not None else None
+                            if rec is not None:
+                                return ri.inline_call(rec, call, a0, [], {}, st)
+                        return a0  # contextlib: _GeneratorContextManager builds a fresh manager from the same call; ContextDecorator returns self
                     if d == "BODY":
                         _l.append(("body", _w["profile"]))
                         if _br:
@@ -797,13 +812,26 @@ def rule_restore_flush(ctx: Ctx, repo: Repo) -> None:
 
                 inline = {f.fq for f in mod.functions.values() if f.cls is None}
                 ri = RepoInterp(repo, fi, inline=inline, call_hook=hook, may_fork=(), heap=True)
+                if tc.cls is not None:
+                    # the tracing block is a class: its instance is a heap object, __enter__/__exit__ and what they call are interpreted
+                    ri.inline |= {f.fq for f in mod.functions.values() if f.cls is tc.cls}
+                    ri.construct_instances = True
+                    ri.dispatch_instances = True
                 outs = ri.run({"logger": S("p:logger"), "P1": R("profiler", name=K("P1")), "BODY": S("func:BODY")})
                 if len(outs) != 1:
                     raise AnalysisError(f"trace_calls: {len(outs)} outcomes for one scenario of the context-manager protocol")
                 o = outs[0]
                 n += 1
-                lab = f"body {'raises' if body_raises else 'returns'}, flush {'raises' if flush_raises else 'returns'}, {'profiler P1 installed between creating and entering the context manager' if prepared else 'entered at once'}"
-                at_entry = R("profiler", name=K("P1" if prepared else "P0"))
+                lab = f"body {'raises' if body_raises else 'returns'}, flush {'raises' if flush_raises else 'returns'}, {'decorator form entered again from inside the block (recursion)' if prepared == 'decorated' else 'profiler P1 installed between creating and entering the context manager' if prepared else 'entered at once'}"
+                at_entry = R("profiler", name=K("P1" if prepared is True else "P0"))
+                if prepared == "decorated":
+                    bodies = [e for e in log if e[0] == "body"]
+                    ctx.check(len(bodies) == 1 and bodies[0][1] == R("tracer"), "R-C03.3", tc.fq, "while the block runs the installed profiler is the tracer (installed with sys.setprofile)",
+                              construct=f"{lab}: {[e[0] for e in log]}")
+                    ctx.check(world["profile"] == at_entry, "R-C03.3", tc.fq,
+                              "when the context exits the profiler that was installed when the block was entered is back in place",
+                              construct=f"{'exception' if body_raises else 'normal'} exit, {lab}: profiler afterwards = {world['profile']}, at entry = {at_entry}")
+                    continue
                 bodies = [e for e in log if e[0] == "body"]
                 if not ctx.check(len(bodies) == 1, "R-C03.3", tc.fq, "the traced block runs exactly once inside the context", construct=f"{lab}: body ran {len(bodies)} time(s)"):
                     continue
@@ -960,8 +988,40 @@ def _uncontained_calls(repo: Repo, fi: FunctionInfo, nodes: List[ast.AST], depth
     return bad
 
 
+def _rule_exit_contained_class(ctx: Ctx, repo: Repo, init: FunctionInfo) -> None:
+    """the tracing block as a class: the calls of __exit__ (and of the methods of the class it calls) besides the restore and
+    the flush, which R-C03.3 / R-C03.7 decide by interpretation, cannot raise past a catch-all handler"""
+    ci = init.cls
+    ex = repo.method(ci, "__exit__")
+    todo, seen_m, n = [ex], {ex.fq}, 0
+    while todo:
+        fi = todo.pop()
+        ctx.functions.add(fi.fq)
+        for c in calls_in(fi.node):
+            d = dotted(c.func) or ""
+            if d == "sys.setprofile" or (isinstance(c.func, ast.Attribute) and c.func.attr == "flush"):
+                continue
+            if isinstance(c.func, ast.Attribute) and dotted(c.func.value) == "self" and repo.method(ci, c.func.attr) is not None:
+                m = repo.method(ci, c.func.attr)
+                if m.fq not in seen_m:
+                    seen_m.add(m.fq)
+                    todo.append(m)
+                continue
+            n += 1
+            bad = _uncontained_calls(repo, fi, [c])
+            if not bad:
+                ctx.ok("R-C03.4", fi.fq, f"`{norm(c)[:70]}` on the exit path cannot raise past a catch-all handler")
+            for bfi, bc in bad:
+                ctx.violate("R-C03.4", bfi.fq, norm(bc), "this call runs on the tracing block's exit path outside any catch-all handler: its failure reaches the traced "
+                            "program and skips what follows (flush)", node=bc)
+    ctx.count("R-C03.4:extra calls on the exit path of trace_calls", n)
+    ctx.ok("R-C03.4", ex.fq, f"{len(seen_m)} method(s) run on exit; {n} calls besides restore and flush, none can raise uncontained")
+
+
 def rule_exit_contained(ctx: Ctx, repo: Repo) -> None:
-    tc0 = repo.fn(M, "trace_calls")
+    tc0 = block_entry(repo)
+    if tc0.cls is not None:
+        return _rule_exit_contained_class(ctx, repo, tc0)
     # the generator whose yield is the traced block: trace_calls itself, or a @contextmanager helper of tracing.py it returns
     cands = [tc0] + [c_ for c_ in (repo.resolve_callee(tc0, x) for x in calls_in(tc0.node)) if c_ is not None and c_.module.name == M and c_.cls is None]
     holders = [f for f in cands if any(isinstance(x, (ast.Yield, ast.YieldFrom)) for x in walk_no_nested(f.node))]
